@@ -4,7 +4,7 @@
    the patch lists and the finally layout are gen/C13Consts.v, regenerated from /repo by T1. *)
 From Coq Require Import List String NArith Bool.
 From RC Require Import gen.C13Consts model.PatchStackC13 proofs.PatchStackC13P proofs.AnalyseC13P
-  proofs.ExitC13P proofs.TheoremsC13P proofs.WitnessC13P.
+  proofs.ExitC13P proofs.TheoremsC13P proofs.WitnessC13P proofs.ContentC13P.
 Import ListNotations.
 Open Scope string_scope.
 
@@ -28,6 +28,13 @@ Print Assumptions C13_generated_lists_ok.
 Theorem C13_listed_are_patched : listed_are_patched_b = true.
 Proof. exact listed_are_patched. Qed.
 Print Assumptions C13_listed_are_patched.
+
+(* the third argument of every patch triple (setup.py path and PEP 517 path) evaluates to a NEW
+   object - a function, StringIO(), a literal, or a copy such as list(sys.argv) - never to the
+   object the attribute already holds: restoring rebinds, it cannot undo an in-place edit *)
+Theorem C13_new_values_fresh : new_values_fresh_b = true.
+Proof. exact new_values_fresh. Qed.
+Print Assumptions C13_new_values_fresh.
 
 (* ---- the property, as far as it holds *)
 
@@ -105,6 +112,23 @@ Theorem C13_pyproject_argv_restored :
   exists s', analyse_pyproject src p s = Alive s' /\ get ("sys", "argv") s' = get ("sys", "argv") s.
 Proof. exact (conj pyproject_argv_patched pyproject_argv_restored). Qed.
 Print Assumptions C13_pyproject_argv_restored.
+
+(* identity vs content: for EVERY script / backend (in-place edits `sys.argv[1:] = [...]` are part of
+   the effect alphabet) and every ending, the object a patched attribute held keeps its content,
+   provided it is a host object bound to that attribute only.  (Partial: aliases are the guard.) *)
+Theorem C13_mutable_contents_partial :
+  (forall root hook cy early p s s' p0,
+     In p0 inner_patched -> p_byname p0 = false -> pkey p0 <> k_showwarning ->
+     host_function_unaliased (pkey p0) s ->
+     analyse root hook cy early p s = Alive s' -> get (pkey p0) s <> None ->
+     content (get (pkey p0) s) s' = content (get (pkey p0) s) s) /\
+  (forall src p s s' p0,
+     In p0 pyproject_patched -> p_byname p0 = false ->
+     host_function_unaliased (pkey p0) s -> get (pkey p0) s <> None ->
+     analyse_pyproject src p s = Alive s' ->
+     content (get (pkey p0) s) s' = content (get (pkey p0) s) s).
+Proof. exact (conj inner_contents_unchanged pyproject_contents_unchanged). Qed.
+Print Assumptions C13_mutable_contents_partial.
 
 (* file operations that go through the substituted functions never change the project *)
 Theorem C13_project_files_untouched_partial : forall ops tree,
